@@ -164,7 +164,8 @@ pub fn case(idx: u64, seed: u64, p: &Params, o: &mut CaseOut) {
     let mut r = Rng::for_case(16, seed, idx);
     let max = p.usize("max_order", 40);
     let fam = r.below(gen::FAMILIES.len());
-    let n = if r.chance(0.7) { gen::small_order(&mut r, max.min(10)) } else { r.range(1, max) };
+    let n = if r.chance(0.7) { gen::algo_order(&mut r, max.min(10), 130) } else { r.range(1, max) };
+    let fam = if n > max { gen::sparse_family(&mut r) } else { fam };
     let mut m = gen::family(&mut r, fam, n);
     // an isolated top vertex, so that "order = largest id + 1" is not an accident
     let isolated_top = n >= 2 && r.chance(0.4);
